@@ -16,13 +16,19 @@ RULE = ('table of every public data operation of Cache, FanoutCache, DjangoCache
         'retry / operator forms / Deque / Index the call returns only after the release and then equals the result and '
         'contents of a fault-free twin; FanoutCache/DjangoCache never raise, return False/None/default, state unchanged, '
         'aggregate removals return the exact total; lock-free lookups succeed while the lock is held, lookups that '
-        'write (statistics/LRU) follow the write rule. evaluations = cases; distinct_nontrivial = distinct (class, '
+        'write (statistics/LRU) follow the write rule. Sibling tier: the lock is held by a transact() block of another '
+        'thread using the same Cache object (nested replace/remove/create of file-backed values, commit or abort); '
+        'every Cache operation issued meanwhile with retry off raises Timeout, with retry on returns after the block, '
+        'and block + call leave what running them one after the other leaves, with no value file lacking a row. '
+        'evaluations = cases; distinct_nontrivial = distinct (class, '
         'operation, fault, retry, timeout) cases')
 DISTINCT = ('cases',)
 REQUIRED = ('cache_timeouts_raised', 'cache_retry_waited', 'bulk_partial_timeouts', 'fanout_reported', 'django_reported',
-            'deque_waited', 'index_waited', 'lockfree_reads_ok', 'fault_taken_after_file_write', 'writing_lookups')
+            'deque_waited', 'index_waited', 'lockfree_reads_ok', 'fault_taken_after_file_write', 'writing_lookups',
+            'sibling_block_cases')
 ASSUMPTIONS = ('stats()/reset() are configuration calls with their own retry loop and are not driven',
-               'the holder is a plain sqlite3 connection holding BEGIN IMMEDIATE on the same database file')
+               'the holder is a plain sqlite3 connection holding BEGIN IMMEDIATE on the same database file, or (sibling '
+               'tier) a transact() block of another thread on the same Cache object')
 
 T = 64
 BIG = 'V' * (T + 30)
@@ -461,6 +467,148 @@ def cases(dc):
         yield ('Index', label, mk_ix, one, call, ('before', None, 1), False, 0, 'read')
 
 
+# ------------------------------------------------ the lock is held by a transact() block of a sibling thread
+class Abort(Exception):
+    pass
+
+
+def block_steps(c, stage):
+    """The holder's nested operations: replace, remove and create file-backed values."""
+    if stage == 0:
+        c.set('f', BIGB)
+    else:
+        c.delete('b')
+        c.set('new', BIG)
+        c.pop('f')
+
+
+def sibling_case(dc, sc, res, label, call, retry, ending, cls='Cache'):
+    """One Cache object used by two threads.  Thread H opens transact(), does a nested operation, waits, does more and
+    commits or aborts.  While H waits the main thread issues `call`: with retry off it must raise Timeout, with retry
+    on it returns after H has ended.  Either way H's block and the call must leave exactly what running them one after
+    the other leaves, and no value file without a row (the timed-out call has no effect, also not on its sibling)."""
+    import threading
+    d, twin_d = sc.new(), sc.new()
+    wit = {'label': label, 'class': cls, 'holder': 'transact() block of a sibling thread on the same object',
+           'retry': retry, 'block_ends_with': ending}
+    cache = dc.Cache(d, timeout=0, disk_min_file_size=T)
+    twin = dc.Cache(twin_d, timeout=0, disk_min_file_size=T)
+    populate(cache)
+    populate(twin)
+    inside, go = threading.Event(), threading.Event()
+    main = threading.current_thread()
+    herr = []
+
+    class ReleaseAfter:
+        failed = 0
+        events = []
+
+        def gate(self, label_, info=None):
+            me = threading.current_thread() is main
+            if label_ == 'err:BEGIN' and me:
+                self.failed += 1
+                if self.failed == 3:
+                    go.set()
+            elif (me and label_ == 'post:BEGIN') or (not me and label_ in ('pre:COMMIT', 'pre:ROLLBACK')):
+                self.events.append(('call' if me else 'block', label_))
+
+    def holder():
+        try:
+            with cache.transact(retry=True):
+                block_steps(cache, 0)
+                inside.set()
+                go.wait(20)
+                block_steps(cache, 1)
+                if ending == 'abort':
+                    raise Abort()
+        except Abort:
+            pass
+        except BaseException as exc:      # noqa: BLE001
+            herr.append(repr(exc))
+
+    th = threading.Thread(target=holder)
+    try:
+        th.start()
+        if not inside.wait(20):
+            res.inconclusive.append('%s: the sibling thread never entered its block' % label)
+            go.set()
+            return
+        ctrl = ReleaseAfter()
+        ctrl.events = []
+        probe.set_controller(ctrl if retry else None)
+        try:
+            got = ('ok', call(cache, retry))
+        except dc.Timeout as exc:
+            got = ('Timeout', exc.args)
+        except Exception as exc:       # noqa: BLE001
+            got = ('raise', '%s: %s' % (type(exc).__name__, exc))
+        probe.set_controller(None)
+        # the call obtained the write lock only after the block had started to end
+        first_begin = next((i for i, e in enumerate(ctrl.events) if e[0] == 'call'), None)
+        ended_before_return = first_begin is not None and any(e[0] == 'block' for e in ctrl.events[:first_begin])
+        go.set()
+        th.join(20)
+        if herr or th.is_alive():
+            res.violation('%s: the sibling thread\'s block failed: %r' % (label, herr or 'still running'), wit)
+            return
+        res.count('evaluations')
+        res.seen('cases', (cls, label, 'sibling-block', retry, ending))
+        # the twin: block, then (if it was to succeed) the call
+        try:
+            with twin.transact():
+                block_steps(twin, 0)
+                block_steps(twin, 1)
+                if ending == 'abort':
+                    raise Abort()
+        except Abort:
+            pass
+        if retry:
+            if got[0] != 'ok' or not ended_before_return:
+                res.violation('%s with retry behind a sibling thread\'s block: expected to wait and succeed, got %r '
+                              '(block ended first: %s)' % (label, got, ended_before_return), wit)
+                return
+            try:
+                want = ('ok', call(twin, retry))
+            except Exception as exc:       # noqa: BLE001
+                want = ('raise', '%s: %s' % (type(exc).__name__, exc))
+            if norm(got) != norm(want):
+                res.violation('%s after waiting for a sibling thread\'s block returned %r, run after it returns %r' % (
+                    label, got, want), wit)
+                return
+        elif got[0] != 'Timeout':
+            res.violation('%s under a lock held by a sibling thread\'s block with retry off: expected Timeout, got %r' % (
+                label, got), wit)
+            return
+        a, b = contents(dc, [d]), contents(dc, [twin_d])
+        if a != b:
+            res.violation('%s: contents differ from the block (and the call) run one after the other' % label,
+                          dict(wit, got=a[0][:8], expected=b[0][:8]))
+            return
+        problems = observe.invariant(d)
+        if problems:
+            res.violation('%s: after the sibling thread\'s block ended: %r' % (label, problems[:3]), wit)
+            return
+        res.count('sibling_block_cases')
+    finally:
+        probe.set_controller(None)
+        go.set()
+        th.join(5)
+        for o in (cache, twin):
+            try:
+                o.close()
+            except Exception:      # noqa: BLE001
+                pass
+        sc.drop(d)
+        sc.drop(twin_d)
+
+
+def sibling_cases():
+    for label, call in cache_ops().items():
+        for ending in ('commit', 'abort'):
+            yield ('sibling ' + label, call, False, ending)
+            yield ('sibling ' + label, call, True, ending)
+
+
 def read_all(h):
     try:
         return h.read()
@@ -486,5 +634,11 @@ def run_shard(tier, seed, shard, nshards, res):
             if expect in ('timeout', 'bulk') and 'get' in label or label.startswith('read ('):
                 res.count('writing_lookups')
             run_case(dc, sc, res, label, make, dirs_of, call, fault, retry, timeout, expect, cls)
+            if res.counters.get('violations_raw', 0) > 10:
+                return
+        for i, (label, call, retry, ending) in enumerate(sibling_cases()):
+            if i % nshards != shard:
+                continue
+            sibling_case(dc, sc, res, label, call, retry, ending)
             if res.counters.get('violations_raw', 0) > 10:
                 return
